@@ -157,12 +157,20 @@ var StdRates = []float64{8000, 11025, 16000, 22050, 32000, 44100, 48000, 88200, 
 // nearTie scans a window of consecutive arguments for the one whose scaled
 // value is closest to a rounding tie (float estimate; the oracle is exact).
 func nearTie(base int64, limit int64, scale float64) int64 {
+	// solve for the argument whose scaled value is closest to m+1/2 for the m at the base,
+	// then look at its immediate neighbours (the last whole argument before a tie matters most)
+	m := math.Floor(float64(base) * scale)
+	x0 := int64(math.Floor((m + 0.5) / scale))
 	best, bestD := base, 2.0
-	for k := int64(0); k < 512 && base+k <= limit; k++ {
-		x := float64(base+k) * scale
-		fr := x - math.Floor(x)
+	for k := int64(-2); k <= 2; k++ {
+		x := x0 + k
+		if x < 0 || x > limit {
+			continue
+		}
+		v := float64(x) * scale
+		fr := v - math.Floor(v)
 		if d := math.Abs(fr - 0.5); d < bestD {
-			best, bestD = base+k, d
+			best, bestD = x, d
 		}
 	}
 	return best
@@ -170,7 +178,16 @@ func nearTie(base int64, limit int64, scale float64) int64 {
 
 func Gen(t *rapid.T) *Case {
 	var f float64
-	switch rapid.IntRange(0, 6).Draw(t, "fSel") {
+	switch rapid.IntRange(0, 7).Draw(t, "fSel") {
+	case 7: // a rate whose period is a whole number of nanoseconds (2^a*5^b ns), odd periods included
+		p := 1.0
+		for a := rapid.IntRange(0, 9).Draw(t, "pow2"); a > 0; a-- {
+			p *= 2
+		}
+		for b := rapid.IntRange(0, 9).Draw(t, "pow5"); b > 0; b-- {
+			p *= 5
+		}
+		f = 1e9 / p
 	case 6: // a rate next to an integer: a few ulps or a tiny epsilon away (an "is it an integer rate" test must be exact)
 		base := float64(rapid.IntRange(1, 1000000).Draw(t, "nearInt"))
 		if rapid.Bool().Draw(t, "nearStd") {
